@@ -973,6 +973,24 @@ class LibMixin:
                         del h.items[k]
                         return [(st, None)]
                     return [self.raised(st, "KeyError", repr(k))]
+            if isinstance(h, HDict) and h.present is not None:
+                # symbolic part: del d[k] raises KeyError when k is absent, else clears presence
+                if h.items:
+                    for ck, cv in h.items.items():
+                        h.present = z3.Store(h.present, box(const(ck)), True)
+                        h.val = z3.Store(h.val, box(const(ck)), box(cv))
+                    h.items = {}
+                kb = box(key)
+                out = []
+                for s, pres in self.branch(st, z3.Select(h.present, kb)):
+                    if pres:
+                        hh = s.deref(obj)
+                        hh.present = z3.Store(hh.present, kb, False)
+                        s.log.append(("delitem", obj.addr))
+                        out.append((s, None))
+                    else:
+                        out.append(self.raised(s, "KeyError", "key"))
+                return out
         raise Unsupported(f"del item on {type(obj).__name__}")
 
     def container_contains(self, st, ref, item):
